@@ -1372,6 +1372,17 @@ class Exec:
         except L.IndexOOB:
             self.ctx.obligation("no-raise:IndexError", False)
             return []
+        except self.lib.NeedConcreteMask as e:
+            if isinstance(fn, (PyFunc, NestedFunc, ClassRef)):
+                raise
+            # a library model needs the truth values of a symbolic boolean array (result shape depends on them): fork on every
+            # entry; on each path the entries are the constants they equal there
+            out = []
+            st.tmp.append((fn, list(args), dict(kwargs)))
+            for s2 in self.concretize_mask(st, e.mask):
+                f2, a2, k2 = s2.tmp.pop()
+                out.extend(self.call(f2, a2, k2, s2, node))
+            return out
         except NeedConcreteInt as e:
             if isinstance(fn, (PyFunc, NestedFunc, ClassRef)):
                 raise
